@@ -11,6 +11,7 @@ also compiled into `drv_c11`):
   the history of accepted fitness values, step-size adaptation, evolution path, the three covariance
   updates incl. the active one);
 * `cmsaUpdate` — `CMSA::updatePopulation`; `cemUpdate` — `CrossEntropyMethod::updateStrategyParameters`;
+* `vdUpdate` — `VDCMA::updateStrategyParameters` (`computeSAndTFirst/Second`, the D and v updates, paths, step size);
 * `Generic` — the shape shared by all comparison-based strategies (sample, evaluate, select by a stable
   sort on fitness, update from the selected individuals), for the rank-invariance theorem.
 
@@ -77,12 +78,24 @@ def track (best x : Sol α) : Sol α := if x.value < best.value then x else best
 
 def evalAt (f : Vec α → α) (p : Vec α) : Sol α := ⟨p, f p⟩
 
-/-- `SimplexDownhill::init`: the vertices `x0 + e_j - 0.5·(1 - e_j)`, `m_best.value = 1e100` first -/
-def simplexInit (f : Vec α → α) (x0 : Vec α) : Simplex α :=
+/-- the vertices `x0 + e_j - 0.5·(1 - e_j)` of the initial simplex, evaluated -/
+def simplexVerts (f : Vec α → α) (x0 : Vec α) : List (Sol α) :=
   let dim := x0.length
-  let verts := (List.range (dim + 1)).map fun j =>
+  (List.range (dim + 1)).map fun j =>
     evalAt f (x0.zipIdx.map fun (xi : α × Nat) => xi.1 + (if xi.2 = j then Scalar.one else -Scalar.half))
-  { simplex := verts, best := verts.foldl track ⟨x0, Scalar.ofRat (10 ^ 100)⟩ }
+
+/-- `SimplexDownhill::init` as REPAIRED (finding F16, `findings_proposed/C11-F16-simplex-init-best.patch`): the best-so-far
+starts as the first vertex.  Agrees with the pinned C++ whenever some vertex value is below `1e100`. -/
+def simplexInit (f : Vec α → α) (x0 : Vec α) : Simplex α :=
+  let verts := simplexVerts f x0
+  { simplex := verts, best := match verts with | [] => evalAt f x0 | v :: vs => vs.foldl track v }
+
+/-- `SimplexDownhill::init` of the pinned tree: `m_best.value = 1e100` first, so `m_best` is only assigned when a vertex
+value is below that magic number (the point is then whatever it was before: empty for a fresh object, stale for a used
+one -- modelled as `p0`) -/
+def simplexInitMagic (f : Vec α → α) (x0 p0 : Vec α) : Simplex α :=
+  let verts := simplexVerts f x0
+  { simplex := verts, best := verts.foldl track ⟨p0, Scalar.ofRat (10 ^ 100)⟩ }
 
 def lincomb (a : α) (x : Vec α) (b : α) (y : Vec α) : Vec α := List.zipWith (fun xi yi => a * xi + b * yi) x y
 
@@ -196,6 +209,24 @@ def ecmaStep (F : Fns α) (k : EcmaConsts α) (s : Ecma α) (y : Vec α) (zz fp 
       { s' with bestPoint := xo, bestValue := fu, anc := s.anc.drop 1 ++ [fp], x := xo }
   | succ => (updateAsParent F k s succ zz y).map fun s' => { s' with x := s.bestPoint }
 
+/-- `ElitistCMA::init`: the history of accepted fitness values is filled with the (penalized) fitness `fp` of the
+starting point, which is also the parent; the reported value is its unpenalized fitness `fu` -/
+def ecmaInit (sigma pSucc : α) (n : Nat) (L : List (Vec α)) (x0 : Vec α) (fp fu : α) : Ecma α :=
+  { sigma := sigma, pSucc := pSucc, path := Vec.zeros n, L := L, anc := List.replicate 5 fp,
+    bestPoint := x0, bestValue := fu, x := x0 }
+
+/-- what one `ElitistCMA::step` consumes: the sampled step `y = L z`, `‖z‖²`, and the offspring's two fitness values -/
+structure EcmaInput (α : Type) where
+  y : Vec α
+  zz : α
+  fp : α
+  fu : α
+
+/-- a whole run (any number of steps, either setting of `activeUpdate()`); `none` = the C++ throws -/
+def ecmaRun (F : Fns α) (k : EcmaConsts α) (s : Ecma α) : List (EcmaInput α) → Option (Ecma α)
+  | [] => some s
+  | i :: rest => (ecmaStep F k s i.y i.zz i.fp i.fu).bind fun s' => ecmaRun F k s' rest
+
 /-! ## CMSA and the cross-entropy method: update from the selected individuals (best first) -/
 
 structure CmsaInd (α : Type) where
@@ -222,6 +253,20 @@ def cmsaUpdate (F : Fns α) (cC : α) (n mu : Nat) (s : Cmsa α) (sel : List (Cm
   let sigma := sel.foldl (fun acc i => acc + Scalar.one / m * i.sigma) Scalar.zero
   L.map fun L => { sigma := sigma, mean := mean, L := L }
 
+/-- `CrossEntropyMethod::INoiseType` as configured by `setNoiseType` (the constructor installs `ConstantNoise(0.0)`) -/
+inductive CemNoise (α : Type) where
+  | default
+  | const (c : α)
+  | linear (a b : α)
+
+/-- `noiseValue(t)`: `ConstantNoise`: `std::max(c, 0.0)`, `LinearNoise`: `std::max(a + t * b, 0.0)`; `t` is the generation
+counter, already incremented when `updateStrategyParameters` reads it -/
+def cemNoise (nz : CemNoise α) (t : Nat) : α :=
+  match nz with
+  | .default => Scalar.max Scalar.zero Scalar.zero
+  | .const c => Scalar.max c Scalar.zero
+  | .linear a b => Scalar.max (a + ofNat t * b) Scalar.zero
+
 /-- `CrossEntropyMethod::updateStrategyParameters`: centroid and per-coordinate variance (+ noise term) -/
 def cemUpdate (noise : α) (n : Nat) (sel : List (Vec α)) : Vec α × Vec α :=
   let k : α := ofNat sel.length
@@ -230,6 +275,104 @@ def cemUpdate (noise : α) (n : Nat) (sel : List (Vec α)) : Vec α × Vec α :=
   let v := (List.range n).map fun j =>
     sel.foldl (fun acc p => let d := Vec.get p j - Vec.get m j; acc + d * d) Scalar.zero * nf + noise
   (m, v)
+
+/-! ## VD-CMA: `VDCMA::updateStrategyParameters` (restricted covariance `σ² D (I + v vᵀ) D`) -/
+
+structure VdConsts (α : Type) where
+  weights : Vec α
+  muEff : α
+  cSigma : α
+  dSigma : α
+  cC : α
+  c1 : α
+  cMu : α
+
+/-- everything `updateStrategyParameters` reads and writes (`counter` = `m_counter` after the increment in `step`) -/
+structure Vd (α : Type) where
+  sigma : α
+  counter : Nat
+  mean : Vec α
+  pc : Vec α
+  ps : Vec α
+  D : Vec α
+  vn : Vec α
+  normv : α
+
+/-- a selected offspring: search point and the stored step `y = (x − m)/(σ D)` -/
+structure VdInd (α : Type) where
+  point : Vec α
+  y : Vec α
+  fitness : α
+
+def vdSelect (off : List (VdInd α)) (mu : Nat) : List (VdInd α) :=
+  (off.mergeSort fun a b => decide (a.fitness ≤ b.fitness)).take mu
+
+def zip3With {β γ δ ε : Type} (f : β → γ → δ → ε) (a : List β) (b : List γ) (c : List δ) : List ε :=
+  List.zipWith (fun (ab : β × γ) ci => f ab.1 ab.2 ci) (List.zip a b) c
+
+/-- `computeSAndTFirst` -/
+def vdFirst (vn : Vec α) (normv : α) (y s t : Vec α) (weight : α) : Vec α × Vec α :=
+  if Scalar.beq weight Scalar.zero then (s, t) else
+  let yvn := Vec.dot y vn
+  let normv2 := normv * normv
+  let gammav := Scalar.one + normv2
+  let c := normv2 / gammav * yvn
+  let k := Scalar.half * (yvn * yvn + gammav)
+  (zip3With (fun si yi vi => si + weight * (yi * yi - c * (yi * vi) - Scalar.one)) s y vn,
+   zip3With (fun ti yi vi => ti + weight * (yvn * yi - k * vi)) t y vn)
+
+def maxOf (v : Vec α) : α :=
+  match v with
+  | [] => Scalar.zero
+  | x :: xs => xs.foldl Scalar.max x
+
+/-- `computeSAndTSecond` -/
+def vdSecond (F : Fns α) (vn : Vec α) (normv : α) (s t : Vec α) : Vec α × Vec α :=
+  let one : α := Scalar.one
+  let two : α := Scalar.two
+  let vn2 := vn.map fun x => x * x
+  let normv2 := normv * normv
+  let gammav := one + normv2
+  let alpha1 := F.sqrt (normv2 * normv2 + (two * gammav - F.sqrt gammav) / maxOf vn2) / (two + normv2)
+  let alpha := Scalar.min alpha1 one
+  let b := -(one - alpha * alpha) * (normv2 * normv2) / gammav + two * (alpha * alpha)
+  let A := vn2.map fun q => two - (b + two * (alpha * alpha)) * q
+  let invAvn2 := List.zipWith (fun q a => q / a) vn2 A
+  let vt := Vec.dot vn t
+  let s3 := zip3With (fun si vi ti => si - alpha / gammav * ((two + normv2) * (vi * ti) - normv2 * vt * (vi * vi))) s vn t
+  let k := b * Vec.dot s3 invAvn2 / (one + b * Vec.dot vn2 invAvn2)
+  let s4 := zip3With (fun si ai qi => si / ai - k * qi) s3 A invAvn2
+  let sv := Vec.dot s4 vn2
+  let t5 := zip3With (fun ti vi si => ti - alpha * ((two + normv2) * (vi * si) - sv * vi)) t vn s4
+  (s4, t5)
+
+/-- `VDCMA::updateStrategyParameters` on the selected offspring (best first) -/
+def vdUpdate (F : Fns α) (c : VdConsts α) (n : Nat) (d : Vd α) (sel : List (VdInd α)) : Vd α :=
+  let one : α := Scalar.one
+  let two : α := Scalar.two
+  let m := wsum n c.weights (sel.map (·.point))
+  let z0 := wsum n c.weights (sel.map (·.y))
+  let b := one / F.sqrt (one + d.normv * d.normv) - one
+  let bz := b * Vec.dot z0 d.vn
+  let z := List.zipWith (fun zi vi => zi + bz * vi) z0 d.vn
+  let ks := F.sqrt (c.cSigma * (two - c.cSigma) * c.muEff)
+  let ps := List.zipWith (fun p zi => (one - c.cSigma) * p + ks * zi) d.ps z
+  let chi := expectedChi F n
+  let hl := norm2 F ps / F.sqrt (one - F.pow (one - c.cSigma) (two * (ofNat d.counter + one)))
+  let hr := (Scalar.ofRat (14/10) + two / (ofNat n + one)) * chi
+  let hSig : α := if hl < hr then one else Scalar.zero
+  let kc := hSig * F.sqrt (c.cC * (two - c.cC) * c.muEff)
+  let pc := zip3With (fun p mi mo => (one - c.cC) * p + kc * (mi - mo) / d.sigma) d.pc m d.mean
+  let st0 : Vec α × Vec α := (Vec.zeros n, Vec.zeros n)
+  let st1 := (List.zip c.weights sel).foldl (fun (st : Vec α × Vec α) (wi : α × VdInd α) =>
+    vdFirst d.vn d.normv wi.2.y st.1 st.2 (c.cMu * wi.1)) st0
+  let st2 := vdFirst d.vn d.normv (List.zipWith (fun p di => p / di) pc d.D) st1.1 st1.2 (hSig * c.c1)
+  let st3 := vdSecond F d.vn d.normv st2.1 st2.2
+  let D := List.zipWith (fun di si => di + di * si) d.D st3.1
+  let v := List.zipWith (fun vi ti => vi * d.normv + ti / d.normv) d.vn st3.2
+  let normv := norm2 F v
+  let sigma := d.sigma * F.exp ((c.cSigma / c.dSigma) * (norm2 F ps / chi - one))
+  { sigma := sigma, counter := d.counter, mean := m, pc := pc, ps := ps, D := D, vn := v.map (· / normv), normv := normv }
 
 /-! ## the common shape of the comparison-based strategies -/
 
